@@ -590,6 +590,14 @@ class _QueryMessage(_MessageType):
                     "Keyspaces may only be set on queries with protocol version "
                     "5 or DSE_V2 or higher. Consider setting Cluster.protocol_version.")
 
+        if protocol_version == 1:
+            # a v1 QUERY body is <query><consistency>: it has no flags byte and nothing after the consistency
+            if flags:
+                raise UnsupportedOperation(
+                    "Query options (flags {flags:#04x}) cannot be sent with protocol version 1. "
+                    "Consider setting Cluster.protocol_version to 2 or higher.".format(flags=flags))
+            return
+
         if ProtocolVersion.uses_int_query_flags(protocol_version):
             write_uint(f, flags)
         else:
